@@ -173,7 +173,8 @@ def d_de(minimize, neg, cfg):
     f = OracleFn(cfg.get("values", V2), neg)
     bounds = [(0.0, 4.0)]
     with Patched("differential_evolution"):
-        res = m.differential_evolution(f, bounds, minimize=minimize, population_size=4, strategy=cfg["strategy"], max_iter=cfg["max_iter"], seed=1, initial_population=cfg.get("init"), **stopper(cfg.get("stop")))
+        extra = {"mutation": cfg["mutation"]} if "mutation" in cfg else {}
+        res = m.differential_evolution(f, bounds, minimize=minimize, population_size=cfg.get("pop", 4), strategy=cfg["strategy"], max_iter=cfg["max_iter"], seed=1, initial_population=cfg.get("init"), **extra, **stopper(cfg.get("stop")))
     return res, f, bounds
 
 
@@ -228,7 +229,10 @@ DRIVERS = {
     "differential_evolution": (
         d_de,
         [dict(strategy=st, max_iter=1, init=[[0.0], [1.0], [2.0], [3.0]], stop=0) for st in ("rand/1", "best/1")]
-        + [dict(strategy="rand/1", max_iter=1, init=[[-1.0], [1.0], [5.0], [3.0]], stop=0), dict(strategy="best/1", max_iter=2, init=[[0.0], [1.0], [2.0], [3.0]], stop=1, values=V3, max_dev=3), dict(strategy="rand/1", max_iter=2, init=None, stop=0, values=V3, max_dev=3)],
+        + [dict(strategy="rand/1", max_iter=1, init=[[-1.0], [1.0], [5.0], [3.0]], stop=0), dict(strategy="best/1", max_iter=2, init=[[0.0], [1.0], [2.0], [3.0]], stop=1, values=V3, max_dev=3), dict(strategy="rand/1", max_iter=2, init=None, stop=0, values=V3, max_dev=3)]
+        # steps longer than the box is wide (mutation factor > 1, two difference vectors): the mutant overshoots by more than one box width
+        + [dict(strategy=st, mutation=2.0, max_iter=1, init=[[0.0], [1.0], [2.0], [3.0]], stop=0) for st in ("rand/1", "best/1")]
+        + [dict(strategy="best/2", pop=5, max_iter=1, init=[[0.0], [1.0], [2.0], [3.0], [4.0]], stop=0, max_dev=3), dict(strategy="rand/2", pop=6, mutation=1.5, max_iter=1, init=[[0.0], [1.0], [2.0], [3.0], [4.0], [0.5]], stop=0, max_dev=2)],
         None,
     ),
     "particle_swarm": (d_pso, [dict(max_iter=1, init=[[1.0], [3.0]], stop=0), dict(max_iter=1, init=[[0.0], [4.0]], stop=0), dict(max_iter=2, init=[[1.0], [3.0]], stop=1, values=V3, max_dev=3), dict(max_iter=2, init=None, stop=0, values=V3, max_dev=3)], None),
